@@ -65,7 +65,9 @@ def run(tier, res, is_known):
                 (('pct', '0.00004', '0'), 3, 'USD', depth),      # commissions below half a cent
                 (FEES_QUICK[1], 3, 'GBP', depth)]               # the account need not be in USD
     else:
-        plan = [(fee, i, 'USD', depth) for fee in fees for i in range(len(INITIALS))]
+        # full depth for the first two fee models, one level less for the others (the alphabet has grown since the
+        # first build; the complete product at depth 5 no longer fits in an hour)
+        plan = [(fee, i, 'USD', depth if k < 2 else depth - 1) for k, fee in enumerate(fees) for i in range(len(INITIALS))]
         plan += [(FEES_QUICK[1], 2, 'GBP', depth), (FEES_QUICK[0], 1, 'EUR', depth)]
     for fee, i, base, dep in plan:
         for init in [INITIALS[i]]:
